@@ -635,9 +635,11 @@ def monitorCall (cfg : Cfg) (m : MonSt) (name : String) (ln : Nat) (op : List St
       | some p => if p.kind = Kind.connack then { iv with server := (Mon.findProp p pSKA).map (· * 1000) } else iv
       | none => iv
     let r := match op with
-      | "send" :: _ =>
+      | _ =>
+        -- every call in which a client requests a packet for sending: direct sends, automatic
+        -- responses, PINGREQ on expiry, retransmission of stored packets after CONNACK
         let sentSomething := evs.any fun (e : Ev) => match e with | .send q _ => q.kind ≠ Kind.disconnect | _ => false
-        if g "cli" = "1" ∧ sentSomething ∧ stAfter ≠ "D" ∧ iv.valid then
+        if g "cli" = "1" ∧ sentSomething ∧ stAfter = "C" ∧ iv.valid then
           let ex := iv.expected
           match Mon.lastSendTimer evs with
           | some (.timerReset _ ms) =>
@@ -647,7 +649,6 @@ def monitorCall (cfg : Cfg) (m : MonSt) (name : String) (ln : Nat) (op : List St
             if ex > 0 then
               r.viol s!"C15 no_rearm_after_send@{site}" s!"{here}: a client sent a packet but did not re-arm the PINGREQ timer ({ex} ms expected): {evS}" else r
         else r
-      | _ => r
     -- C07: inbound QoS 2 exactly once per exchange
     let q2 : List Nat := match op with
       | ["restore_h", ids] => if ids = "-" then [] else ((ids.splitOn ",").filterMap (fun (w : String) => w.toNat?)).eraseDups
